@@ -79,9 +79,10 @@ impl Client {
     pub fn open(&mut self, renew: bool, pv: u32) -> (u32, Vec<u8>) {
         let m = OpenSecureChannelRequest {
             request_header: Self::header(1),
-            client_protocol_version: pv,
+            // pv >= 1000: protocol version pv - 1000 in a request whose security mode is Invalid (C15)
+            client_protocol_version: if pv >= 1000 { pv - 1000 } else { pv },
             request_type: if renew { SecurityTokenRequestType::Renew } else { SecurityTokenRequestType::Issue },
-            security_mode: MessageSecurityMode::None,
+            security_mode: if pv >= 1000 { MessageSecurityMode::Invalid } else { MessageSecurityMode::None },
             client_nonce: ByteString::null(),
             requested_lifetime: 60000,
         };
